@@ -182,6 +182,15 @@ var readExpr = map[string]string{
 	// a process-wide (static) associative table that requests only READ: iterate it with foreach, parking inside the
 	// loop body (inner gate 50: such steps are not reported in "order", the stage is merely split)
 	"static_iter": `c11_iter($n, $id)`,
+	// except() on a key that IS in the query string, then that key read through the request object
+	"rexceptq": `c11_field($r->except("tok"), "id")`,
+	"rtok":     `$r->input("tok")`,
+	"rtokq":    `c11_field($r->query(), "tok")`,
+	// a recursive plain function, parked 14 frames deep (inner gate 50)
+	"deep": `c11_deep($n, $id, 14)`,
+	// an object shared by all requests (captured by the handler closure), cloned per request; the clone's array
+	// properties are modified element-wise: neither the prototype nor other clones may change
+	"cap_clone": `c11_clone($cobj, $id)`,
 }
 
 func jsonMode(segs [][]string) bool {
@@ -212,13 +221,20 @@ func script(segs [][]string, gates bool, quiet bool, capt bool) string {
 	} else {
 		sb.WriteString("function c11_iter($n, $id) { static $tbl = [\"a\" => \"1\", \"b\" => \"2\", \"c\" => \"3\"]; $s = \"\"; foreach ($tbl as $k => $v) { $s = $s . $k . $v; } return ($s == \"a1b2c3\") ? $id : \"it\" . $s; }\n")
 	}
+	sb.WriteString("class C11Proto { public $vars = [\"k\" => \"0\"]; public $list = [0]; public $name = \"proto\"; }\n")
+	sb.WriteString("function c11_clone($proto, $id) { $cl = clone $proto; $cl->list[] = $id; $cl->vars[\"k\"] = $id; $cl->name = $id; if (count($cl->list) == 2 && $cl->list[1] == $id && $cl->vars[\"k\"] == $id && count($proto->list) == 1 && $proto->vars[\"k\"] == \"0\" && $proto->name == \"proto\") { return $id; } return \"cl\" . count($cl->list) . \"/\" . count($proto->list) . \"/\" . $proto->vars[\"k\"]; }\n")
+	if gates {
+		sb.WriteString("function c11_deep($n, $id, $k) { if ($k == 0) { verif_gate($n, 50); return $id; } return c11_deep($n, $id, $k - 1); }\n")
+	} else {
+		sb.WriteString("function c11_deep($n, $id, $k) { if ($k == 0) { return $id; } return c11_deep($n, $id, $k - 1); }\n")
+	}
 	sb.WriteString("class C11Dto { public $pid = \"none\"; public $opt = \"dflt\"; public $id = \"0\"; }\n")
 	sb.WriteString("function c11_field($a, $k) { if (is_array($a)) { return $a[$k]; } return $a->{$k}; }\n")
 	sb.WriteString("function c11_after($s, $m) { $p = strpos($s, $m); if ($p === false) { return \"?\"; } return substr($s, $p + strlen($m)); }\n")
 	sb.WriteString("function c11_bind($d, $id) { $want = (((int)$id) % 2 == 1) ? $id : \"dflt\"; if ($d->pid == $id && $d->id == $id && $d->opt == $want) { return $id; } return \"b\" . $d->pid . \"/\" . $d->opt; }\n")
 	if capt {
-		sb.WriteString("$carr = [0]; $cmap = [\"k\" => \"0\"]; $ccnt = 0;\n")
-		sb.WriteString("$hcap = function($r, $w) use ($carr, $cmap, $ccnt) {\n  $capn = 0; $capc = 0;\n")
+		sb.WriteString("$carr = [0]; $cmap = [\"k\" => \"0\"]; $ccnt = 0; $cobj = new C11Proto();\n")
+		sb.WriteString("$hcap = function($r, $w) use ($carr, $cmap, $ccnt, $cobj) {\n  $capn = 0; $capc = 0;\n")
 	} else {
 		sb.WriteString("function h($r, $w) {\n")
 	}
@@ -302,7 +318,7 @@ func mkRequest(i int) *http.Request {
 		form += fmt.Sprintf("&opt=%d", i) // an optional field only odd requests send (read kind rbind)
 	}
 	body := strings.NewReader(form)
-	req := httptest.NewRequest("POST", fmt.Sprintf("%s?id=%d", routePath, i), body)
+	req := httptest.NewRequest("POST", fmt.Sprintf("%s?id=%d&tok=%d", routePath, i, i), body)
 	req.Header.Set("Content-Type", "application/x-www-form-urlencoded")
 	req.Header.Set("X-Tag", fmt.Sprint(i))
 	if i%2 == 1 {
@@ -516,11 +532,14 @@ func runGated() {
 		gmu.Lock()
 		gates = gs
 		gmu.Unlock()
-		var warm *Resp
+		var warm, warm2 *Resp
 		if c.Warmup {
 			// one request served alone first (no gate is armed for id 99: verif_gate returns at once)
 			w := serve(h, 99)
 			warm = &w
+			// ... and once more, byte-identical (same id, same query string): it must get the same answer
+			w2 := serve(h, 99)
+			warm2 = &w2
 		}
 		resps := make([]Resp, c.NReq)
 		start := make([]chan struct{}, c.NReq)
@@ -608,7 +627,7 @@ func runGated() {
 			out.Encode(map[string]any{"deadlock": dead, "order": order, "finished": fin, "warmup": warm})
 			return
 		}
-		out.Encode(map[string]any{"resps": resps, "order": order, "warmup": warm})
+		out.Encode(map[string]any{"resps": resps, "order": order, "warmup": warm, "warmup2": warm2})
 	})
 }
 
